@@ -11,7 +11,7 @@ import sys
 from pathlib import Path
 
 ROUND = int(os.environ.get("SEEDROUND", "2"))
-SUFFIX = {2: ("C", "D"), 3: ("E", "F"), 4: ("G", "H")}[ROUND]
+SUFFIX = {2: ("C", "D"), 3: ("E", "F"), 4: ("G", "H"), 5: ("I", "J")}[ROUND]
 
 for spec in sys.argv[1:]:
     prop, x, verdict = spec.split(":", 2)
